@@ -328,3 +328,65 @@ def bounded_xarray_indexing(ses, prop):
             function="xarray.core.indexing (dependency)",
             replay=lambda m, kind=kind, first=first: {"confirmed": True, "witness_class": kind, "input": first[1],
                                                       "observed": first[2], "expected": first[3]})
+
+
+# ---------------------------------------------------------------------------------------------------
+# Array.__post_init__ establishes the class invariant Inv(Array) that case_getitem assumes
+# ---------------------------------------------------------------------------------------------------
+def case_post_init(ses, case):
+    (tc,) = case
+    fn = ses.under_contract(A.Array.__post_init__, "ceos_alos2.array.Array.__post_init__")
+    for f in (A.normalize_chunksize, A.compute_chunk_offsets, A.compute_chunk_ranges, A.to_offset_size):
+        ses.under_contract(f)
+    w = World(tc, with_inv=False)
+    rpc = z3.Int("rpc_given")
+    hyps = w.hyps() + [rpc >= 1]
+    P = ses.prop
+
+    def run(path, extra):
+        it = Interp(path)
+        arr = object.__new__(A.Array)
+        fields = dict(fs=SymFS(), url="img", byte_ranges=w.byte_ranges(path), shape=(Sym(w.n, int), Sym(w.W, int)),
+                      dtype=w.dtype, type_code=tc, records_per_chunk=Sym(rpc, int))
+        for k_, v in fields.items():
+            object.__setattr__(arr, k_, v)
+        it.call(it.getattr(arr, "__post_init__"), [], {})
+        extra["it"] = it
+        return arr
+
+    ok = explore_checked(ses, f"{P}/post_init/{tc}", run, hyps, function=fn, timeout_ms=1500)
+    for pi, r in enumerate(ok):
+        arr, it, path = r.value, r.extra["it"], r.path
+        base = path_hyps(path)
+        pid = f"{P}/post_init/{tc}/path{pi}"
+        c = as_int_term(arr.records_per_chunk)
+        ses.prove(f"{pid}/records_per_chunk=min(rpc,n)", base, c == z3.If(rpc <= w.n, rpc, w.n), function=fn)
+        co = arr.chunk_offsets
+        ok_map = hasattr(co, "sym_getitem")
+        ses.decided(f"{pid}/chunk_offsets-is-a-mapping-by-chunk-number", ok_map, function=fn, detail={"got": repr(co)[:100]})
+        if not ok_map:
+            continue
+        r_ = z3.Int("row")
+        k = FDIV(r_, c)
+        rng = [r_ >= 0, r_ < w.n]
+        path.assume(z3.And(*rng))
+        path.assume(z3.And(c * k <= r_, r_ < c * k + c))
+        try:
+            entry = co.sym_getitem(it, mk_int(k))
+        except KeyError as e:
+            ses.not_proved(f"{pid}/every-row's-chunk-has-an-entry", f"KeyError: {e}", function=fn)
+            continue
+        off, size = as_int_term(entry["offset"]), as_int_term(entry["size"])
+        facts = []
+        for info in getattr(path, "minmax", {}).values():
+            # instantiate the min / max contracts at the row's position inside its chunk
+            facts.append(info["instance"](r_ - c * k))
+        hyp = path_hyps(path) + facts + [w.row_facts(r_)]
+        ses.prove(f"{pid}/chunk-span-covers-every-row-of-the-chunk", hyp,
+                  z3.And(off <= w.start(r_), w.stop(r_) <= off + size), function=fn, sliced=False)
+        ses.prove(f"{pid}/chunk-span-non-negative-and-inside-file", hyp, z3.And(off >= 0, size >= 0, off + size <= w.fsize),
+                  function=fn)
+        # tightness: the span starts at the start of one of the chunk's rows and ends at the stop of one of them
+        wit = [(info["witness"], info["is_min"]) for info in getattr(path, "minmax", {}).values()]
+        ses.decided(f"{pid}/span-bounds-are-attained(min,max-witnesses)", {m for _, m in wit} == {True, False},
+                    function=fn, detail={"witnesses": len(wit)})
